@@ -172,7 +172,8 @@ Inductive oop :=
 | OCtorMoveOptU (t : bool)           (* Y : x = O(move(c)) *)
 | OEmplaceC (v : Z)                  (* E : c.emplace(v) *)
 | OResetC                            (* R *)
-| OCtorValue (t : bool) (v : Z)      (* i, j : x = O(in_place, v) / O(T value) *)
+| OCtorValue (t : bool) (v : Z)      (* i, j, p, P, q : x = O(in_place, v) / O(T value) / make_optional(value) /
+                                        make_optional<T>(args) / make_optional(lvalue) *)
 | OCtorValueU (t : bool) (v : Z)     (* J : x = O(U value) *)
 | OCtorEmpty (t : bool).             (* d, D : x = O() / O(nullopt) *)
 
@@ -198,7 +199,8 @@ Inductive rop :=
 | RWrite (t : bool) (v : Z)          (* w : if (x) *x = v   (T not const) *)
 | RSelf (t : bool)                   (* f *)
 | RCellSet (c : nat) (v : Z)         (* W : cells[c] = v, not through any optional *)
-| RFromOpt (t : bool)                (* o, i, O : x = O(as_const(src)) / O(src) : optional<T&>(optional<U> const&), U = T0 *)
+| RFromOpt (t : bool)                (* o, i, O, Q : x = O(as_const(src)) / O(src) : optional<T&>(optional<U> const&) resp. (optional<U>&)
+                                        (same initialiser), U = T0; for T not const x = src is x = O(src) *)
 | RFromRef (t : bool)                (* x, X : x = O(as_const(z)) / O(z)        : optional<T&>(optional<U> const&), U = T0& *)
 | RAssignOpt (t : bool)              (* q, Q : x = as_const(src) / x = src      : operator=(optional<U> const&), U = T0 *)
 | RAssignRef (t : bool)              (* y, Y : x = as_const(z) / x = z          : operator=(optional<U> const&), U = T0& *)
